@@ -229,6 +229,10 @@ def r02_4(ctx):
                         f = dict(x[4])
                         if const_val(f['start']) == 0 and poly(f['end']) == count:
                             okr = True
+                # or an explicit counter i = 0; while i < count { ..; i += 1 }
+                lvs = loop_vars(an, b, count)
+                if not okr and any(nosite(x) in lvs for x in D.visited if isinstance(x, tuple) and x and x[0] == 'phi'):
+                    okr = True
                 ctx.check(okr, R, key + '|dest[i] loop bound', b.loc(), 'element writes run over i in 0..(x2-x1)',
                           'dest is written element-wise but the loop is not bounded by x2 - x1')
         # (b) row procs called through the blend_fn pointer
@@ -274,7 +278,39 @@ def r02_5(ctx):
         st = [(a, v, pt) for a, v, pt, kind in an.stores if kind == 'assign']
         ok = len(st) >= 1
         zipped = None
+        indexed = 0
         for addr, val, pt in st:
+            # alternative spelling: dst[i] for i in 0..min(len of every slice)
+            if addr[0] == 'index' and strip_all(addr[1]) in (('param', dst_p), ('deref', ('param', dst_p))):
+                bounds = []
+                i_t = strip_casts(addr[2], ('IntToInt',))
+                if i_t[0] == 'field' and i_t[4] == 'Some' and is_call(i_t[1], 'Iterator::next'):
+                    D0 = Deps(an)
+                    D0.closure(i_t[1][2][0])
+                    bounds = [dict(x[4]) for x in D0.visited if x[0] == 'agg' and x[2] and x[2].endswith('ops::Range')]
+                    bounds = [(f['start'], f['end']) for f in bounds]
+                else:
+                    bounds = [(cl['init'], cl['bound']) for cl in counter_loops(an, b) if cl['var'] == nosite(i_t)]
+                def min_leaves(t):
+                    t = strip_all(t)
+                    if t[0] == 'call' and isinstance(t[1], str) and t[1].endswith('Ord::min') and len(t[2]) == 2:
+                        return min_leaves(t[2][0]) + min_leaves(t[2][1])
+                    return [t]
+                good = False
+                for st0, en in bounds:
+                    ls = min_leaves(en)
+                    ps = set()
+                    for l in ls:
+                        l = strip_casts(l)
+                        base = strip_all(l[2]) if (l[0] == 'un' and l[1] == 'PtrMetadata') else (strip_all(l[2][0]) if is_call(l, '::len') and len(l[2]) == 1 else None)
+                        while base is not None and base[0] == 'deref':
+                            base = strip_all(base[1])
+                        ps.add(base[1] if base is not None and base[0] == 'param' else None)
+                    if const_val(st0) == 0 and ps == set(range(1, nparams + 1)):
+                        good = True
+                if good:
+                    indexed += 1
+                    continue
             # addr = deref(field chain of Some payload of next(iter))
             root = addr
             while root[0] in ('deref', 'field', 'ref'):
@@ -289,6 +325,10 @@ def r02_5(ctx):
             for z in zs:
                 ops = zip_operands(z)
             zipped = ops
+        if ok and zipped is None and indexed == len(st) and indexed:
+            ctx.ok(R, key + '|store via zip', b.loc(), 'dst[i] written for i in 0..min(len of every slice)')
+            n += 1
+            continue
         if not ctx.check(ok and zipped is not None, R, key + '|store via zip', b.loc(), 'dst written only through the zipped iterator', 'dst is written other than through the zipped iterator (e.g. by index): the write is not bounded by the shortest slice'):
             continue
         first = zipped[0] if zipped else None
@@ -342,6 +382,49 @@ def classify_index(b, p, loopvars):
     return res
 
 
+def counter_loops(an, b):
+    """loops written with an explicit counter — `let mut i = S; while i < E { ..; i += 1 }` or
+    `loop { if i >= E { break } ..; i += 1 }`: i has exactly two definitions reaching the test (the initial value
+    outside the loop, `i + 1` inside it), the increment lies on every cycle, and the loop is left exactly when `i < E`
+    fails.  [{var: the phi term of i as seen inside the loop, init: S, bound: E, header, blocks}]"""
+    out = []
+    loops = an.cfg.loops()
+    for si, t in b.terminators('switch'):
+        if si not in an.cfg.reach or t.get('ty') != 'bool':
+            continue
+        c = an.term_at(si, len(b.blocks[si]['st']), t['o'])
+        neg = False
+        while c[0] == 'un' and c[1] == 'Not':
+            c, neg = c[2], not neg
+        if c[0] != 'bin' or c[1] not in ('Lt', 'Ge', 'Gt', 'Le'):
+            continue
+        lhs, rhs, op = c[2], c[3], c[1]
+        if op in ('Gt', 'Le'):                    # E > i  /  E <= i
+            lhs, rhs = rhs, lhs
+            op = 'Lt' if op == 'Gt' else 'Ge'
+        stay_when_true = (op == 'Lt') != neg      # the branch taken when i < E
+        i_t = strip_casts(lhs, ('IntToInt',))
+        if i_t[0] != 'phi':
+            continue
+        ds = [an.defs[k] for k in i_t[2]]
+        if len(ds) != 2 or any(d.partial or d.kind != 'assign' for d in ds):
+            continue
+        false_t = [tt for v, tt in t['targets'] if v == '0']
+        if not false_t:
+            continue
+        stay, leave = (t['otherwise'], false_t[0]) if stay_when_true else (false_t[0], t['otherwise'])
+        for inc in ds:
+            init = [d for d in ds if d is not inc][0]
+            pinc = poly(an.def_term(inc))
+            if pinc != Poly.leaf(nosite(i_t)) + Poly.const(1) and pinc != poly(i_t) + Poly.const(1):
+                continue
+            hs = [h for h, bl in loops.items() if si in bl and inc.bb in bl and stay in bl and leave not in bl and init.bb not in bl]
+            if not hs or an.cfg.cycle_through(hs[0], loops[hs[0]], [inc.bb]):
+                continue
+            out.append({'var': nosite(i_t), 'init': an.def_term(init), 'bound': rhs, 'header': hs[0], 'blocks': loops[hs[0]]})
+    return out
+
+
 def loop_vars(an, b, count):
     """terms that are the payload of next() over a 0..count range"""
     out = set()
@@ -357,6 +440,10 @@ def loop_vars(an, b, count):
                 if const_val(f['start']) == 0 and poly(f['end']) == count:
                     out.add(nosite(('field', ct, '0', 'std::option::Option', 'Some')))
                     out.add(nosite(('field', ct, '0', 'core::option::Option', 'Some')))
+    for cl in counter_loops(an, b):
+        if const_val(cl['init']) == 0 and poly(cl['bound']) == count:
+            out.add(cl['var'])
+            out.add(nosite(('cast', 'IntToInt', 'usize', cl['var'])))
     return out
 
 
@@ -750,7 +837,14 @@ def r03_4(ctx):
             v = strip_all(val)
             def is_blend(t):
                 t = strip_all(t)
-                return is_call(t, 'blend::Blend::blend') and strip_all(t[2][1]) == old and t[2][0][0] == 'deref' and strip_all(t[2][0]) != old
+                if not (is_call(t, 'blend::Blend::blend') and strip_all(t[2][1]) == old):
+                    return False
+                a0 = strip_all(t[2][0])
+                if t[2][0][0] == 'deref' and a0 != old:
+                    return True          # the source element of the same zipped tuple
+                # or src[i] next to dst[i]: same index term, the base is the source parameter
+                return (a0[0] == 'index' and old[0] == 'index' and nosite(a0[2]) == nosite(old[2]) and strip_all(a0[1]) != strip_all(old[1])
+                        and strip_all(a0[1]) in (('param', 1), ('deref', ('param', 1))))
             if q.endswith('blend_row'):
                 ok = is_blend(v)
                 ctx.check(ok, R, key + '|roles', b.loc(), '*dst = T::blend(*src, *dst)', 'blend_row stores %s, expected T::blend(*src, *dst)' % fmt(b, v))
